@@ -23,6 +23,7 @@ from fractions import Fraction
 
 from harness.common import extract
 from harness.common.extract import NotRecognised
+from harness.common.build import InfraError
 from harness.common.fakeproc import FakeProc, patched
 from harness.common.shrink import ddmin
 
@@ -446,3 +447,696 @@ def _runtime(snap):
     if not isinstance(d["sector"], int) or d["sector"] < 0:
         raise NotRecognised("DISK_SECTOR_SIZE = %r" % (d["sector"],))
     return d
+
+
+# ------------------------------------------------------------------------------ implementation side
+
+H1 = b"Inter-|   Receive                                                |  Transmit"
+H2 = (b" face |bytes    packets errs drop fifo frame compressed multicast|bytes    packets errs drop fifo colls "
+      b"carrier compressed")
+ST_FIELDS = ["f_bsize", "f_frsize", "f_blocks", "f_bfree", "f_bavail", "f_files", "f_ffree", "f_favail",
+             "f_flag", "f_namemax"]
+
+
+class Impl:
+    """Drives the real psutil functions over a fake procfs, a redirected /sys/block and a scripted statvfs."""
+
+    def __init__(self, ctx):
+        self.ps = ctx.psutil
+        self.lin = self.ps._pslinux
+        self.fp = FakeProc(self.ps, prefix="psv-c09-proc-")
+        self.sysroot = tempfile.mkdtemp(prefix="psv-c09-sys-")
+        self.sysblock = os.path.join(self.sysroot, "sys", "block")
+        os.makedirs(self.sysblock)
+        self.real_access = os.access
+        self.real_statvfs = os.statvfs
+        self.next_st = None
+        self.access_log = 0
+        real_access, sysroot = self.real_access, self.sysroot
+
+        def access(path, mode, **kw):
+            # only the hard-coded /sys/block/... probes of is_storage_device are redirected
+            if isinstance(path, str) and path.startswith("/sys/block/"):
+                self.access_log += 1
+                return real_access(sysroot + path, mode, **kw)
+            return real_access(path, mode, **kw)
+
+        def statvfs(path):
+            if self.next_st is not None and path == "/psv-c09-mount":
+                return os.statvfs_result(tuple(self.next_st))
+            return self.real_statvfs(path)
+        os.access = access
+        os.statvfs = statvfs
+
+    def close(self):
+        os.access = self.real_access
+        os.statvfs = self.real_statvfs
+        self.fp.close()
+        shutil.rmtree(self.sysroot, ignore_errors=True)
+
+    def set_sysblock(self, entries):
+        for n in os.listdir(os.fsencode(self.sysblock)):
+            os.rmdir(os.path.join(os.fsencode(self.sysblock), n))
+        for e in entries:
+            os.mkdir(os.path.join(os.fsencode(self.sysblock), bytes(e)))
+
+    def _canon(self, r):
+        if r is None:
+            return {"kind": "none"}
+        if isinstance(r, dict):
+            if not r:
+                return {"kind": "empty"}
+            devs = []
+            for k, v in r.items():
+                devs.append([os.fsencode(k).hex(), [[f, int(x)] for f, x in zip(v._fields, v)]])
+            devs.sort()
+            return {"kind": "perdev", "devs": devs}
+        return {"kind": "total", "fields": [[f, int(x)] for f, x in zip(r._fields, r)]}
+
+    def _call(self, fn, **kw):
+        try:
+            return self._canon(fn(**kw))
+        except Exception as e:  # noqa: BLE001 - every exception is an observable
+            return {"kind": "exc", "exc": type(e).__name__}
+
+    def net(self, file, pernic, nowrap=False):
+        self.fp.write("net/dev", file)
+        if nowrap:
+            self.ps.net_io_counters.cache_clear()
+        return self._call(self.ps.net_io_counters, pernic=pernic, nowrap=nowrap)
+
+    def disk(self, file, sysblock, perdisk, nowrap=False):
+        self.fp.write("diskstats", file)
+        self.set_sysblock(sysblock)
+        if nowrap:
+            self.ps.disk_io_counters.cache_clear()
+        return self._call(self.ps.disk_io_counters, perdisk=perdisk, nowrap=nowrap)
+
+    def storage(self, sysblock, names):
+        self.set_sysblock(sysblock)
+        out = []
+        for n in names:
+            try:
+                out.append(bool(self.lin.is_storage_device(os.fsdecode(bytes(n)))))
+            except Exception as e:  # noqa: BLE001
+                out.append(type(e).__name__)
+        return out
+
+    def usage(self, st):
+        self.next_st = st
+        try:
+            r = self.ps.disk_usage("/psv-c09-mount")
+            return {"total": int(r.total), "used": int(r.used), "free": int(r.free), "percent": float(r.percent),
+                    "fields": list(r._fields)}
+        except Exception as e:  # noqa: BLE001
+            return {"kind": "exc", "exc": type(e).__name__}
+        finally:
+            self.next_st = None
+
+
+def canon_model(out):
+    """driver output → the shape Impl._canon produces"""
+    if out is None:
+        return None
+    if out.get("kind") == "perdev":
+        return {"kind": "perdev", "devs": sorted([[k, v] for k, v in out["devs"]])}
+    return out
+
+
+# ------------------------------------------------------------------------------ generators
+
+# bytes >= 0x80 that cannot start/continue the UTF-8 encoding of a Unicode space (c2 85, c2 a0, e1 9a 80,
+# e2 80 xx, e2 81 9f, e3 80 80) - see ASSUMPTIONS
+HIGH = [b for b in range(0x80, 0x100) if b not in (0xC2, 0xE1, 0xE2, 0xE3)]
+NAMECHARS = b"abcdefghijklmnopqrstuvwxyzABCDEFGHIJKLMNOPQRSTUVWXYZ0123456789_-.@"
+
+
+def rand_counter(rng, style):
+    if style == "big":
+        return rng.choice([2**64 - 1, 2**63, 2**32, 2**32 - 1, rng.randrange(2**64), rng.randrange(2**64),
+                           rng.randrange(2**70)])
+    if style == "mid":
+        return rng.randrange(10**rng.randrange(1, 13))
+    return rng.randrange(0, 50)
+
+
+def distinct_row(rng, n, style, salt):
+    """n counters, pairwise distinct so that any swap/shift of columns is visible"""
+    if style == "tiny":
+        return [salt * 64 + i + 1 for i in range(n)]
+    while True:
+        row = [rand_counter(rng, style) for _ in range(n)]
+        if style == "small":
+            row = [salt * 64 + v * 0 + i + 1 + rng.randrange(0, 2) * 32 for i, v in enumerate(row)]
+        if len(set(row)) == n and all(v != 0 for v in row[:n]):
+            return row
+
+
+def gen_net_name(rng, fam):
+    if fam == "plain":
+        return rng.choice([b"lo", b"eth0", b"wlp3s0", b"docker0", b"enp0s31f6", b"br-3f2a1c9d8e7b", b"veth1a2b3c4",
+                           b"tun0", b"e", b"abcdef", b"abcde", b"abcdefg"])
+    if fam == "colon":
+        return rng.choice([b"eth0:1", b"eth0:123", b"a:b:c", b":x", b"x:", b"::", b"eth0: 5", b"lo:0: 1 2",
+                           b":abcdefgh", b"a:1 2 3 4 5 6 7 8 9 10 11 12 13 14 15 16"])
+    if fam == "slash":
+        return rng.choice([b"a/b", b"/", b"eth/0", b"../x", b"vlan/12"])
+    if fam == "digits":
+        return rng.choice([b"0", b"123", b"0042", b"9" * 12, b"1:2"])
+    if fam == "high":
+        n = rng.randrange(1, 9)
+        return bytes(rng.choice(HIGH) if rng.random() < 0.6 else rng.choice(NAMECHARS) for _ in range(n))
+    if fam == "innerws":
+        return rng.choice([b"a b", b"a\tb", b"a\x1fb", b"a\x1c\x1db", b"x  y z"])
+    n = rng.randrange(1, 16)
+    return bytes(rng.choice(NAMECHARS + b":/") for _ in range(n))
+
+
+NET_FAMS = ["plain", "plain", "colon", "colon", "slash", "digits", "high", "innerws", "random"]
+
+
+def gen_net_case(rng):
+    r = rng.random()
+    n = 0 if r < 0.06 else (1 if r < 0.15 else rng.randrange(2, 41 if rng.random() < 0.15 else 9))
+    style = rng.choice(["tiny", "small", "mid", "big", "big"])
+    ifs, seen = [], set()
+    fams = set()
+    for k in range(n):
+        for _ in range(20):
+            fam = rng.choice(NET_FAMS)
+            nm = gen_net_name(rng, fam)
+            if nm not in seen:
+                break
+        else:
+            continue
+        seen.add(nm)
+        fams.add(fam)
+        ifs.append({"name": nm.hex(), "cols": distinct_row(rng, 16, style, k)})
+    return {"op": "net", "h1": H1.hex(), "h2": H2.hex(), "ifs": ifs, "pernic": rng.random() < 0.5}, \
+        {"n": n, "style": style, "fams": sorted(fams)}
+
+
+DISK_BASES = [b"sda", b"sdb", b"sdaa", b"hda", b"vda", b"xvda", b"nvme0n1", b"nvme1n1", b"mmcblk0", b"dm-0", b"dm-12",
+              b"loop0", b"loop7", b"md127", b"zram0", b"sr0", b"cciss/c0d0", b"cciss/c0d1", b"ida/c0d0", b"rd/c0d0",
+              b"nbd0", b"ram0", b"\xe9disk", b"d\xff\x80"]
+
+
+def part_name(base, i):
+    if base[-1:].isdigit():
+        return base + b"p%d" % i
+    return base + b"%d" % i
+
+
+LAYOUTS = ["full0", "full4", "full6", "fullN", "part", "old24"]
+
+
+def gen_rec(rng, layout, style, salt):
+    if layout == "part":
+        return {"k": "part", "v": distinct_row(rng, 4, style, salt)}
+    row = distinct_row(rng, 24, style, salt)
+    if layout == "old24":
+        return {"k": "old24", "s": row[:11], "last": row[11]}
+    k = {"full0": 0, "full4": 4, "full6": 6}.get(layout)
+    if k is None:
+        k = rng.choice([5, 7, 8, 9, 12])
+    return {"k": "full", "s": row[:11], "ext": row[11:11 + k]}
+
+
+def gen_disk_case(rng):
+    r = rng.random()
+    ndisks = 0 if r < 0.06 else (1 if r < 0.2 else rng.randrange(2, 7))
+    style = rng.choice(["tiny", "small", "mid", "big", "big"])
+    mixed = rng.random() < 0.7
+    lay0 = rng.choice(LAYOUTS)
+    bases = rng.sample(DISK_BASES, ndisks)
+    devs = []
+    lays = set()
+    big = rng.random() < 0.1
+    for bi, base in enumerate(bases):
+        lay = rng.choice(LAYOUTS) if mixed else lay0
+        lays.add(lay)
+        whole_is_part = rng.random() < 0.04          # a whole-disk name the kernel does not list in /sys/block
+        devs.append({"major": rng.choice([3, 8, 8, 65, 179, 253, 259, 7, 1000, 12345]), "minor": rng.choice([0, 16, 32, 1 << 20]),
+                     "name": base.hex(), "part": whole_is_part, "rec": gen_rec(rng, lay, style, len(devs))})
+        nparts = rng.choice([0, 0, 1, 2, 3, 8 if big else 2])
+        for i in range(1, nparts + 1):
+            layp = rng.choice(LAYOUTS) if mixed else lay0
+            lays.add(layp)
+            devs.append({"major": devs[-1]["major"], "minor": i, "name": part_name(base, i).hex(),
+                         "part": rng.random() < 0.97, "rec": gen_rec(rng, layp, style, len(devs))})
+    if rng.random() < 0.3:
+        rng.shuffle(devs)
+    devs = devs[:40]
+    return {"op": "disk", "devs": devs, "perdisk": rng.random() < 0.5}, \
+        {"n": len(devs), "style": style, "layouts": sorted(lays), "whole": sum(1 for d in devs if not d["part"])}
+
+
+def render_net_line(name, cols):
+    """an independent (Python) rendition of the kernel format, used for the malformed stream only"""
+    fmt = [7, 7, 4, 4, 4, 5, 10, 9, 8, 7, 4, 4, 4, 5, 7, 10]
+    return name.rjust(6) + b":" + b"".join(b" " + str(v).encode().rjust(w) for w, v in zip(fmt, cols))
+
+
+def gen_netraw_case(rng):
+    """malformed / corner-case /proc/net/dev contents (model-only comparison)"""
+    fam = rng.choice(["nocolon", "short", "long", "nonnum", "blank", "emptyname", "crlf", "noheader", "oneheader",
+                      "empty", "dup", "nofinalnl", "tabs", "leadzero"])
+    rows = [(rng.choice([b"lo", b"eth0", b"eth0:1", b"w"]), distinct_row(rng, 16, "small", k)) for k in range(rng.randrange(1, 4))]
+    lines = [H1, H2] + [render_net_line(n, c) for n, c in rows]
+    end = b"\n"
+    if fam == "nocolon":
+        lines.append(b"  eth9 1 2 3 4 5 6 7 8 9 10 11 12 13 14 15 16")
+    elif fam == "short":
+        lines.append(b"  eth9:" + b" ".join(b"%d" % i for i in range(1, rng.choice([1, 8, 15, 16]))))
+    elif fam == "long":
+        lines.append(b"  eth9: " + b" ".join(b"%d" % i for i in range(1, rng.choice([18, 19, 33]))))
+    elif fam == "nonnum":
+        toks = [b"%d" % i for i in range(1, 17)]
+        toks[rng.randrange(16)] = rng.choice([b"x", b"1x", b"0x10", b"1.5", b"1e3", b"--1", b"1-"])
+        lines.append(b"  eth9: " + b" ".join(toks))
+    elif fam == "blank":
+        lines.insert(rng.randrange(2, len(lines) + 1), rng.choice([b"", b"   ", b"\t"]))
+    elif fam == "emptyname":
+        lines.append(rng.choice([b": 1 2 3 4 5 6 7 8 9 10 11 12 13 14 15 16", b"   : 1 2 3 4 5 6 7 8 9 10 11 12 13 14 15 16"]))
+    elif fam == "crlf":
+        end = rng.choice([b"\r\n", b"\r"])
+    elif fam == "noheader":
+        lines = lines[2:]
+    elif fam == "oneheader":
+        lines = lines[:1] if rng.random() < 0.5 else lines[1:]
+    elif fam == "empty":
+        lines = []
+    elif fam == "dup":
+        n, _ = rows[0]
+        lines.append(render_net_line(n, distinct_row(rng, 16, "small", 9)))
+        if rng.random() < 0.5:
+            lines.append(render_net_line(b"zz", distinct_row(rng, 16, "small", 5)))
+    elif fam == "tabs":
+        lines.append(b"\teth9:\t" + b"\t".join(b"%d" % i for i in range(1, 17)) + b"\t")
+    elif fam == "leadzero":
+        lines.append(b"eth9:" + b" ".join(b"00%d" % i for i in range(1, 17)))
+    data = end.join(lines) + (b"" if fam == "nofinalnl" or not lines else end)
+    return {"op": "netraw", "file": data.hex(), "pernic": rng.random() < 0.6}, {"fam": fam}
+
+
+def disk_line(major, minor, name, nums, name_idx=2):
+    toks = [b"%4d" % major, b"%7d" % minor] + [b"%d" % v for v in nums]
+    toks.insert(name_idx, name)
+    return b" ".join(toks)
+
+
+def gen_diskraw_case(rng):
+    fam = rng.choice(["flen", "flen", "nonnum", "blank", "dup", "crlf", "empty", "tabs", "nofinalnl", "dotname"])
+    sys = [b"sda", b"sdb"]
+    lines = [disk_line(8, 0, b"sda", distinct_row(rng, 11, "small", 1)),
+             disk_line(8, 1, b"sda1", distinct_row(rng, 11, "small", 2))]
+    end = b"\n"
+    if fam == "flen":
+        n = rng.randrange(0, 26)
+        toks = [b"%d" % (100 + i) for i in range(n)]
+        if n > 2:
+            toks[2] = b"sdb"
+        if n == 15:
+            toks[2], toks[3] = b"102", b"sdb"
+        lines.insert(rng.randrange(0, 3), b" ".join(toks))
+    elif fam == "nonnum":
+        nums = [b"%d" % v for v in distinct_row(rng, 11, "small", 3)]
+        nums[rng.randrange(11)] = rng.choice([b"x", b"1x", b"1.0", b"0x1", b"--1"])
+        lines.append(b"   8      16 sdb " + b" ".join(nums))
+    elif fam == "blank":
+        lines.insert(rng.randrange(0, 3), rng.choice([b"", b"  "]))
+    elif fam == "dup":
+        lines.append(disk_line(8, 0, rng.choice([b"sda", b"sda1"]), distinct_row(rng, 11, "small", 5)))
+        lines.append(disk_line(8, 16, b"sdb", distinct_row(rng, 11, "small", 6)))
+    elif fam == "crlf":
+        end = rng.choice([b"\r\n", b"\r"])
+    elif fam == "empty":
+        lines = []
+    elif fam == "tabs":
+        lines.append(b"\t8\t16\tsdb\t" + b"\t".join(b"%d" % v for v in distinct_row(rng, 11, "small", 4)))
+    elif fam == "dotname":
+        lines.append(disk_line(8, 32, rng.choice([b".", b"..", b"...", b"!", b"a!b", b"a/b"]), distinct_row(rng, 11, "small", 7)))
+        sys = sys + [b"a!b"] if rng.random() < 0.5 else sys
+    data = end.join(lines) + (b"" if fam == "nofinalnl" or not lines else end)
+    return {"op": "diskraw", "file": data.hex(), "sysblock": [s.hex() for s in sys], "perdisk": rng.random() < 0.5}, \
+        {"fam": fam}
+
+
+def gen_usage_case(rng):
+    fam = rng.choice(["typical", "typical", "full", "emptyfs", "zero", "reserved", "weird", "huge", "tie"])
+    frsize = rng.choice([512, 1024, 4096, 4096, 65536, 1, 3])
+    bsize = rng.choice([4096, 8192, 131072, 7])
+    if bsize == frsize:
+        bsize *= 2                      # distinct, so that f_bsize-for-f_frsize is visible
+    blocks = rng.randrange(1, 10**rng.randrange(1, 12))
+    if fam == "typical":
+        bfree = rng.randrange(0, blocks + 1)
+        bavail = rng.randrange(0, bfree + 1)
+    elif fam == "full":
+        bfree = rng.randrange(0, 3)
+        bavail = 0
+    elif fam == "emptyfs":
+        bfree = blocks
+        bavail = blocks - rng.randrange(0, min(blocks, 5) + 1)
+    elif fam == "zero":
+        blocks = bfree = bavail = 0
+    elif fam == "reserved":
+        bfree = rng.randrange(0, blocks + 1)
+        bavail = 0
+    elif fam == "weird":                 # pseudo file systems: free > total, avail > free
+        bfree = blocks + rng.randrange(0, 1000)
+        bavail = rng.randrange(0, 2 * blocks + 1000)
+    elif fam == "huge":
+        blocks = rng.randrange(2**60, 2**64)
+        bfree = rng.randrange(0, blocks)
+        bavail = rng.randrange(0, bfree + 1)
+        frsize = rng.choice([4096, 2**20, 2**32])
+    else:                                # percent exactly at a rounding tie k.x5
+        d = rng.choice([2000, 200, 400, 4000])
+        k = rng.randrange(0, d) | 1
+        used_b, free_b = k, d - k        # used/(used+free)*100 = k/d*100
+        blocks = used_b + free_b + rng.randrange(0, 5)
+        bfree = blocks - used_b
+        bavail = free_b
+    files = rng.randrange(1, 10**6)
+    st = [bsize, frsize, blocks, bfree, bavail, files, files // 2 + 1, files // 3 + 2, rng.choice([0, 1, 4096, 1024]),
+          rng.choice([255, 143, 1020])]
+    return {"op": "usage", "st": st}, {"fam": fam}
+
+
+# ------------------------------------------------------------------------------ correspondence
+
+def features(op, meta):
+    """which clause families of the property a case exercises"""
+    f = set()
+    if op["op"] == "net":
+        f.add("net:" + ("pernic" if op["pernic"] else "total"))
+        if not op["ifs"]:
+            f.add("net:empty")
+        for x in meta.get("fams", []):
+            f.add("netname:" + x)
+    elif op["op"] == "disk":
+        f.add("disk:" + ("perdisk" if op["perdisk"] else "total"))
+        if not op["devs"]:
+            f.add("disk:empty")
+        if op["devs"] and not op["perdisk"] and meta.get("whole") == 0:
+            f.add("disk:only-partitions")
+        if any(d["part"] for d in op["devs"]) and any(not d["part"] for d in op["devs"]):
+            f.add("disk:disks+partitions")
+        if any(b"/" in bytes.fromhex(d["name"]) for d in op["devs"]):
+            f.add("disk:slash-name")
+        for x in meta.get("layouts", []):
+            f.add("layout:" + x)
+        if len(meta.get("layouts", [])) > 1:
+            f.add("disk:mixed-layouts")
+    elif op["op"] in ("netraw", "diskraw"):
+        f.add(op["op"] + ":" + meta["fam"])
+    elif op["op"] == "usage":
+        f.add("usage:" + meta["fam"])
+    return f
+
+
+def usage_agrees(im, ref):
+    """impl dict vs driver usage object; percent against exact rationals"""
+    if "kind" in im or "kind" in ref:
+        return im == ref
+    if im.get("fields") != ["total", "used", "free", "percent"]:
+        return False
+    if (im["total"], im["used"], im["free"]) != (ref["total"], ref["used"], ref["free"]):
+        return False
+    exact = Fraction(ref["percent"][0], ref["percent"][1])
+    r1 = Fraction(ref["round1"][0], ref["round1"][1])
+    p = Fraction(im["percent"])                       # the double, exactly
+    if abs(p - r1) <= Fraction(1, 10**9):
+        return True
+    # within 1e-7 of a rounding tie the double may fall on the other side
+    t = exact * 10
+    near_tie = abs((t - (t.numerator // t.denominator)) - Fraction(1, 2)) <= Fraction(1, 10**7) * max(1, abs(t))
+    return near_tie and abs(p - exact) <= Fraction(1, 20) + Fraction(1, 10**9)
+
+
+def run_ops(ctx, impl, ops):
+    """→ list of (impl_out, model_out, spec_out_or_None, extra)"""
+    outs = []
+    drv = ctx.driver()
+    CH = 400
+    for a in range(0, len(ops), CH):
+        chunk = ops[a:a + CH]
+        answers = drv.batch([{k: v for k, v in o.items() if not k.startswith("_")} for o in chunk])
+        for o, ans in zip(chunk, answers):
+            if "bad" in ans:
+                raise InfraError("driver rejected %r: %s" % (o, ans))
+            kind = o["op"]
+            nowrap = bool(o.get("_nowrap"))
+            if kind == "net":
+                im = impl.net(bytes.fromhex(ans["file"]), o["pernic"], nowrap)
+            elif kind == "netraw":
+                im = impl.net(bytes.fromhex(o["file"]), o["pernic"], nowrap)
+            elif kind == "disk":
+                im = impl.disk(bytes.fromhex(ans["file"]), [bytes.fromhex(x) for x in ans["sysblock"]], o["perdisk"], nowrap)
+            elif kind == "diskraw":
+                im = impl.disk(bytes.fromhex(o["file"]), [bytes.fromhex(x) for x in o["sysblock"]], o["perdisk"], nowrap)
+            elif kind == "usage":
+                im = impl.usage(o["st"])
+            elif kind == "storage":
+                im = impl.storage([bytes.fromhex(x) for x in o["sysblock"]], [bytes.fromhex(x) for x in o["names"]])
+            else:
+                raise ValueError(kind)
+            outs.append((im, canon_model(ans.get("model")) if kind not in ("usage", "storage") else ans.get("model"),
+                         canon_model(ans.get("spec")) if kind not in ("usage", "storage") else ans.get("spec"), ans))
+    return outs, len(ops)
+
+
+def judge(op, im, mo, sp):
+    """→ None (agree) / 'spec' / 'model'"""
+    if op["op"] == "usage":
+        if sp is not None and not usage_agrees(im, sp):
+            return "spec"
+        return None if usage_agrees(im, mo) else "model"
+    if sp is not None and im != sp:
+        return "spec"
+    if im != mo:
+        return "model"
+    return None
+
+
+def corpus_ops():
+    """clause-directed seeds that always run first"""
+    def iface(name, base):
+        return {"name": name.hex(), "cols": [base + i for i in range(1, 17)]}
+
+    def dev(major, minor, name, part, rec):
+        return {"major": major, "minor": minor, "name": name.hex(), "part": part, "rec": rec}
+    s = list(range(1, 12))
+    ops = []
+    for per in (True, False):
+        ops.append(({"op": "net", "h1": H1.hex(), "h2": H2.hex(), "ifs": [], "pernic": per}, {"n": 0, "fams": []}))
+        ops.append(({"op": "net", "h1": H1.hex(), "h2": H2.hex(), "pernic": per,
+                     "ifs": [iface(b"lo", 0), iface(b"eth0:1", 100), iface(b"a:b: 7 8", 200), iface(b"x/y", 300),
+                             iface(b"123", 2**64 - 20)]}, {"n": 5, "fams": ["colon", "digits", "plain", "slash"]}))
+        ops.append(({"op": "disk", "devs": [], "perdisk": per}, {"n": 0, "layouts": [], "whole": 0}))
+        # the test-suite's three pinned lines, one file, plus 18/20-field lines and a cciss disk with partitions
+        ops.append(({"op": "disk", "perdisk": per, "devs": [
+            dev(3, 0, b"hda", False, {"k": "old24", "s": s, "last": 12}),
+            dev(3, 0, b"hdb", False, {"k": "full", "s": [20 + x for x in s], "ext": []}),
+            dev(3, 1, b"hdb1", True, {"k": "part", "v": [41, 42, 43, 44]}),
+            dev(259, 0, b"nvme0n1", False, {"k": "full", "s": [60 + x for x in s], "ext": [72, 73, 74, 75]}),
+            dev(259, 1, b"nvme0n1p1", True, {"k": "full", "s": [80 + x for x in s], "ext": [92, 93, 94, 95, 96, 97]}),
+            dev(104, 0, b"cciss/c0d0", False, {"k": "full", "s": [100 + x for x in s], "ext": [112, 113, 114, 115, 116, 117]}),
+            dev(104, 1, b"cciss/c0d0p1", True, {"k": "full", "s": [120 + x for x in s], "ext": []}),
+        ]}, {"n": 7, "layouts": ["full0", "full4", "full6", "old24", "part"], "whole": 4}))
+        # only partitions listed: total is None
+        ops.append(({"op": "disk", "perdisk": per, "devs": [dev(8, 1, b"sda1", True, {"k": "full", "s": s, "ext": []})]},
+                    {"n": 1, "layouts": ["full0"], "whole": 0}))
+    return ops
+
+
+def exhaustive_ops():
+    """finite sub-domains enumerated completely"""
+    ops = []
+    # every field count 0..25 of one diskstats line, name at index 2 (index 3 for 15), alone and after a good line
+    for n in range(0, 26):
+        toks = [b"%d" % (100 + i) for i in range(n)]
+        if n > 2:
+            toks[2] = b"sdb"
+        if n == 15:
+            toks[2], toks[3] = b"102", b"sdb"
+        for prefix in (b"", b"   8       0 sda 1 2 3 4 5 6 7 8 9 10 11\n"):
+            for per in (True, False):
+                ops.append(({"op": "diskraw", "file": (prefix + b" ".join(toks) + b"\n").hex(),
+                             "sysblock": [b"sda".hex(), b"sdb".hex()], "perdisk": per}, {"fam": "flen"}))
+    # every number of counters 0..20 after the colon of one /proc/net/dev line
+    for n in range(0, 21):
+        line = b"  eth0:" + b"".join(b" %d" % (i + 1) for i in range(n))
+        ops.append(({"op": "netraw", "file": (H1 + b"\n" + H2 + b"\n" + line + b"\n").hex(), "pernic": True},
+                    {"fam": "short" if n < 16 else "long"}))
+    # every number of header lines 0..3 in front of two interface lines
+    for k in range(0, 4):
+        body = [H1, H2, H1][:k] + [render_net_line(b"lo", list(range(1, 17))), render_net_line(b"eth0", list(range(21, 37)))]
+        ops.append(({"op": "netraw", "file": (b"\n".join(body) + b"\n").hex(), "pernic": True}, {"fam": "noheader"}))
+    return ops
+
+
+def storage_ops(rng):
+    names = [b"sda", b"sda1", b"cciss/c0d0", b"cciss!c0d0", b"cciss/c0d0p1", b".", b"..", b"...", b"a/b/c", b"/", b"!",
+             b"\xe9disk", b"d\xff\x80", b"loop0", b"SDA", b"sd", b"sdaa"]
+    ops = []
+    for _ in range(6):
+        sb = rng.sample([b"sda", b"cciss!c0d0", b"a!b!c", b"!", b"\xe9disk", b"d\xff\x80", b"loop0", b"sdaa", b"..."],
+                        rng.randrange(0, 7))
+        ops.append(({"op": "storage", "sysblock": [x.hex() for x in sb], "names": [x.hex() for x in names]}, {}))
+    return ops
+
+
+def correspond(ctx, res):
+    impl = Impl(ctx)
+    try:
+        res.rule = ("cases = one call of psutil.net_io_counters / disk_io_counters / disk_usage over a generated "
+                    "/proc/net/dev, /proc/diskstats (+/sys/block) or statvfs result; non-trivial = at least one "
+                    "interface/device line is parsed (or an exception / None / {} is the promised outcome for a "
+                    "non-empty file) resp. a statvfs record with blocks > 0; distinct = distinct canonical inputs")
+        ops = []
+        ops += [(o, m, "corpus") for o, m in corpus_ops()]
+        n_exh0 = len(ops)
+        ops += [(o, m, "exhaustive") for o, m in exhaustive_ops()]
+        n_exh = len(ops) - n_exh0
+        ops += [(o, m, "storage") for o, m in storage_ops(ctx.rng)]
+        n = ctx.n(1000, 50000)
+        for i in range(n):
+            r = i % 20
+            if r < 7:
+                o, m = gen_disk_case(ctx.rng)
+            elif r < 12:
+                o, m = gen_net_case(ctx.rng)
+            elif r < 14:
+                o, m = gen_diskraw_case(ctx.rng)
+            elif r < 16:
+                o, m = gen_netraw_case(ctx.rng)
+            else:
+                o, m = gen_usage_case(ctx.rng)
+            if o["op"] in ("net", "disk", "netraw", "diskraw") and ctx.rng.random() < 0.1:
+                o["_nowrap"] = True      # first call after cache_clear(): nowrap=True must return the same
+            ops.append((o, m, "random"))
+        results, nlines = run_ops(ctx, impl, [o for o, _, _ in ops])
+        res.extra["driver_lines"] = nlines
+        for (o, m, src), (im, mo, sp, ans) in zip(ops, results):
+            res.count("source:" + src)
+            res.count("op:" + o["op"])
+            if o["op"] == "storage":
+                res.case(o, nontrivial=True)
+                if im != mo:
+                    res.disagree("model", o, im, mo, None, note="real is_storage_device on the redirected /sys/block "
+                                 "differs from the model")
+                continue
+            feats = features(o, m)
+            for f in feats:
+                res.count(f)
+            if o.get("_nowrap"):
+                res.count("nowrap=True after cache_clear")
+            if isinstance(im, dict) and im.get("kind"):
+                res.count("impl:" + im["kind"] + (":" + im["exc"] if im.get("kind") == "exc" else ""))
+            if "n" in m:
+                res.count("size:%s" % ("0" if m["n"] == 0 else "1" if m["n"] == 1 else "2-8" if m["n"] <= 8 else "9-40"))
+            nontrivial = (o["op"] == "usage" and o["st"][2] > 0) or \
+                         (o["op"] in ("net", "disk") and m.get("n", 0) > 0) or \
+                         (o["op"] in ("netraw", "diskraw") and len(o["file"]) > 0)
+            res.case(o, nontrivial=nontrivial,
+                     sample={"input": o, "impl": im} if src == "random" and len(res.samples) < 5 and nontrivial else None)
+            verdict = judge(o, im, mo, sp)
+            if verdict == "spec":
+                res.disagree("spec", o, im, mo, sp, note="implementation differs from the specification "
+                             "(kernel-rendered input → documented fields)")
+            elif verdict == "model":
+                res.disagree("model", o, im, mo, sp, note="implementation differs from the Lean model")
+        res.exhaustive = ("%d cases: every field count 0..25 of a /proc/diskstats line (alone / after a valid line, "
+                          "perdisk both ways), every counter count 0..20 of a /proc/net/dev line, every header-line "
+                          "count 0..3; the table/usage cases are samples") % n_exh
+        res.extra["access_redirects"] = impl.access_log
+        res.extra["live_renderer_check"] = live_check(ctx, impl, res)
+    finally:
+        impl.close()
+
+
+def search(ctx, res, broken):
+    correspond(ctx, res)
+
+
+# ------------------------------------------------------------------------------ renderer validation on the live kernel
+
+def live_check(ctx, impl, res):
+    """Parse the sandbox's real /proc/net/dev and /proc/diskstats with an independent strict parser, re-render
+    through the Lean renderers and require byte equality (supporting evidence for the trusted renderers)."""
+    out = {}
+    ops = []
+    try:
+        with open("/proc/net/dev", "rb") as f:
+            raw = f.read()
+        lines = raw.split(b"\n")
+        assert lines[-1] == b""
+        ifs = []
+        for l in lines[2:-1]:
+            name, _, tail = l.rpartition(b":")
+            cols = [int(x) for x in tail.split()]
+            assert len(cols) == 16
+            ifs.append({"name": name.lstrip(b" ").hex(), "cols": cols})
+        ops.append(("net", raw, {"op": "net", "h1": lines[0].hex(), "h2": lines[1].hex(), "ifs": ifs, "pernic": True}))
+    except Exception as e:  # noqa: BLE001
+        out["net"] = "unavailable: %s" % type(e).__name__
+    try:
+        with open("/proc/diskstats", "rb") as f:
+            raw = f.read()
+        devs = []
+        for l in raw.split(b"\n")[:-1]:
+            t = l.split()
+            assert len(t) in (14, 18, 20)
+            devs.append({"major": int(t[0]), "minor": int(t[1]), "name": t[2].hex(), "part": False,
+                         "rec": {"k": "full", "s": [int(x) for x in t[3:14]], "ext": [int(x) for x in t[14:]]}})
+        ops.append(("disk", raw, {"op": "disk", "devs": devs, "perdisk": True}))
+    except Exception as e:  # noqa: BLE001
+        out["disk"] = "unavailable: %s" % type(e).__name__
+    if ops:
+        answers = ctx.driver().batch([o for _, _, o in ops])
+        for (kind, raw, o), ans in zip(ops, answers):
+            same = bytes.fromhex(ans.get("file", "")) == raw
+            out[kind] = {"lines": len(o.get("ifs", o.get("devs", []))), "byte_identical": same}
+            if not same:
+                res.notes.append("live %s: the Lean renderer does not reproduce the sandbox kernel's file byte for byte" % kind)
+    return out
+
+
+# ------------------------------------------------------------------------------ shrink / replay
+
+def _fails(ctx, impl, op):
+    (im, mo, sp, _), = run_ops(ctx, impl, [op])[0]
+    return judge(op, im, mo, sp) == "spec", im, mo, sp
+
+
+def shrink(ctx, d):
+    op = d["input"]
+    key = {"net": "ifs", "disk": "devs"}.get(op.get("op"))
+    if key is None or len(op[key]) < 2:
+        return d
+    impl = Impl(ctx)
+    try:
+        small = ddmin(op[key], lambda items: _fails(ctx, impl, dict(op, **{key: items}))[0], max_tests=40)
+        op2 = dict(op, **{key: small})
+        bad, im, mo, sp = _fails(ctx, impl, op2)
+        if bad:
+            return dict(d, input=op2, impl=im, model=mo, spec=sp)
+    finally:
+        impl.close()
+    return d
+
+
+def replay(ctx, rp, res):
+    op = rp.get("input")
+    if not isinstance(op, dict) or "op" not in op:
+        return True
+    impl = Impl(ctx)
+    try:
+        (im, mo, sp, _), = run_ops(ctx, impl, [op])[0]
+        v = judge(op, im, mo, sp)
+        print("replay: impl=%s\n        spec=%s" % (str(im)[:400], str(sp if sp is not None else mo)[:400]))
+        return v is not None
+    finally:
+        impl.close()
